@@ -163,6 +163,20 @@ Definition p_substring2 (v a : sx) : res sx :=
   | _ => Err (TypeError "substring")
   end.
 
+(** (length ls): proper lists only *)
+Fixpoint sx_length (v : sx) : option Z :=
+  match v with
+  | Nil => Some 0%Z
+  | Pair _ d => match sx_length d with Some n => Some (n + 1)%Z | None => None end
+  | _ => None
+  end.
+Definition p_length (v : sx) : res sx :=
+  match sx_length v with Some n => Ok (Num n) | None => Err (TypeError "length: not a list") end.
+
+(** (identifier->symbol x): a symbol is itself; syntactic closures (C07) are not S-expression data here *)
+Definition p_identifier_to_symbol (v : sx) : res sx :=
+  match v with Sym s => Ok (Sym s) | _ => Err (TypeError "identifier->symbol") end.
+
 (** (error msg irritant ...) *)
 Definition p_error (msg : sx) (irritants : list sx) : res sx :=
   match msg with Str m => Err (SchemeError m) | _ => Err (SchemeError "?") end.
